@@ -46,7 +46,7 @@ def t_arr(v):
 
 
 def t_arr2(v):
-    return {'k': 'arr2', 'v': [[int(x) for x in r] for r in v]}
+    return {'k': 'arr2', 'm': [[int(x) for x in r] for r in v]}
 
 
 def t_ell():
@@ -66,7 +66,7 @@ def term_to_py(t):
     if k == 'arr':
         return np.array(t['v'], dtype=int)
     if k == 'arr2':
-        return np.array(t['v'], dtype=int)
+        return np.array(t['m'], dtype=int)
     if k == 'ell':
         return Ellipsis
     if k == 'tuple':
@@ -367,8 +367,8 @@ def cyclic_groups(md):
 
 
 NL_FOR_CYCLE = ['nlbgs', 'newton', 'nlbgs', 'nlbj', 'broyden']
-LN_FOR_CYCLE = [('direct', {}), ('direct', {'assemble_jac': True}), ('lnbgs', {}), ('lnbj', {}), ('krylov', {})]
-LN_ANY = [('runonce', {}), ('direct', {}), ('direct', {'assemble_jac': True}), ('lnbgs', {}), ('krylov', {})]
+LN_FOR_CYCLE = [('direct', {'assemble_jac': False}), ('direct', {'assemble_jac': True}), ('lnbgs', {}), ('lnbj', {}), ('krylov', {})]
+LN_ANY = [('runonce', {}), ('direct', {'assemble_jac': False}), ('direct', {'assemble_jac': True}), ('lnbgs', {}), ('krylov', {})]
 
 
 def assign_solvers(rng, md, nl=None, ln=None, jac=None):
@@ -384,9 +384,9 @@ def assign_solvers(rng, md, nl=None, ln=None, jac=None):
             nln = 'newton'
         lnn, lo = ln or rng.choice(LN_FOR_CYCLE)
         if nln == 'newton' and lnn in ('lnbj',):
-            lnn, lo = 'direct', {}
+            lnn, lo = 'direct', {'assemble_jac': False}
         if nln == 'broyden' and lnn != 'direct':      # legality: Broyden on the full model needs a DirectSolver
-            lnn, lo = 'direct', {}
+            lnn, lo = 'direct', {'assemble_jac': False}
         sv[gp] = {'nl': {'name': nln, 'opts': {'err_on_non_converge': True}},
                   'ln': {'name': lnn, 'opts': dict(lo, **({} if lnn in ('direct', 'runonce') else {'err_on_non_converge': True}))}}
     if '' not in sv:
